@@ -68,6 +68,71 @@ def fixpoint(shape, shard=None, nshards=1):
     return harness
 
 
+_FILES = {}
+
+
+def _files_dir():
+    import os
+    import tempfile
+
+    if not _FILES:
+        d = os.path.join(tempfile.gettempdir(), f"vf_c10_files_{os.getpid()}")
+        os.makedirs(d, exist_ok=True)
+        for name, text in (("d.yaml", "k: 4\nj: 5\n"), ("g.yaml", "k: 11\nr: 2.5\n"), ("x.yaml", "class_path: vf.fixtures.Sub1\ninit_args:\n  w: 4\n"), ("l.txt", "1\n2\n")):
+            with open(os.path.join(d, name), "w") as f:
+                f.write(text)
+        _FILES["dir"] = d
+    return _FILES["dir"]
+
+
+def from_files():
+    """Values that were loaded from files carry metadata (__path__); a parse result holding them is still a fixed point."""
+    import os
+    from typing import Dict, List
+
+    from jsonargparse import ArgumentError, ArgumentParser
+
+    from ..fixtures import Base, Inner
+
+    install_format_stubs()
+    d = _files_dir()
+    parser = ArgumentParser(exit_on_error=False)
+    parser.add_argument("--d", type=Dict[str, int], default={}, enable_path=True)
+    parser.add_argument("--g", type=Inner, default=Inner())
+    parser.add_argument("--x", type=Base, default=None, enable_path=True)
+    parser.add_argument("--l", type=List[int], default=[], enable_path=True)
+    parser.add_argument("--n", type=int, default=0)
+    parser.parse_object({})
+
+    def harness():
+        obj = {"n": S.int("n")}
+        obj["d"] = os.path.join(d, "d.yaml") if S.flag("d.from_file") else {"k": S.int("d.k")}
+        obj["g"] = os.path.join(d, "g.yaml") if S.flag("g.from_file") else {"k": S.int("g.k")}
+        if S.flag("x.given"):
+            obj["x"] = os.path.join(d, "x.yaml") if S.flag("x.from_file") else {"class_path": "vf.fixtures.Base", "init_args": {"w": S.int("x.w")}}
+        obj["l"] = os.path.join(d, "l.txt") if S.flag("l.from_file") else [S.int("l0")]
+        try:
+            cfg = parser.parse_object(obj)
+        except ArgumentError:
+            S.note("rejected")
+            return None
+        S.note("accepted")
+        try:
+            parser.validate(cfg)
+        except (TypeError, KeyError) as ex:
+            return Fail("fixpoint:result-does-not-validate", msg=str(ex)[:200])
+        try:
+            again = parser.parse_object(cfg.clone())
+        except ArgumentError as ex:
+            return Fail("fixpoint:result-not-accepted-as-object", msg=str(ex)[:200])
+        r = same(cfg, again)  # metadata keys included
+        if r:
+            return Fail("fixpoint:reparse-of-result-differs", where=r)
+        return True
+
+    return harness
+
+
 def json_copy(d):
     if isinstance(d, dict):
         return {k: json_copy(v) for k, v in d.items()}
@@ -149,6 +214,7 @@ def main(rep, tier):
 
     jobs = [dict(module="c10", func="fixpoint", kwargs=dict(shape=s.name, **sj), timeout=240 if tier == "quick" else 900) for s in shapes for sj in shard_jobs(s.name)]
     jobs += [dict(module="c10", func="kernel", kwargs=dict(spec=sp, depth=d), timeout=200) for sp, d in KERNEL_SPECS]
+    jobs.append(dict(module="c10", func="from_files", kwargs={}, timeout=300))
     e2e = []
     if tier == "thorough":
         e2e = [dict(module="c01", func="e2e_factory", kwargs=dict(shape=s.name, skip_default=False), timeout=600) for s in shapes_for(tier)]
